@@ -399,6 +399,10 @@ func runDL(c DLCase) core.Result {
 				slow++ // a handshake that timed out (loaded machine): try again with more time
 				continue
 			}
+			if err != nil && slow < 2 && frozen.Load() > 0 && (strings.Contains(err.Error(), "EOF") || strings.Contains(err.Error(), "reset")) {
+				slow++ // the process was descheduled meanwhile: the client's own 3 s handshake timeout has closed the connection
+				continue
+			}
 			if err == nil || !strings.Contains(err.Error(), "refused") {
 				break // otherwise only retry while the client's listener is not up yet
 			}
@@ -413,9 +417,9 @@ func runDL(c DLCase) core.Result {
 	if c.SeedPeer && c.SeedDials {
 		honest = dial(1, speer.Behaviour{}, c.SeedFast, mseOpts(c.SeedMSE, true))
 		if honest == nil {
-			if frozen.Load() > 0 && (strings.Contains(lastDialErr, "timeout") || strings.Contains(lastDialErr, "deadline")) {
+			if frozen.Load() > 0 && (strings.Contains(lastDialErr, "timeout") || strings.Contains(lastDialErr, "deadline") || strings.Contains(lastDialErr, "EOF") || strings.Contains(lastDialErr, "reset")) {
 				// three handshakes with 2, 6 and 10 s timed out: the machine is too loaded for this case to say anything
-				res.Inconcl = "the honest seeder's handshake with the client timed out three times: " + lastDialErr
+				res.Inconcl = "the honest seeder's handshake with the client timed out (or was closed by the client's own handshake timeout) three times while the process was being descheduled: " + lastDialErr
 				return res
 			}
 			return core.Failf("the honest seeder could not connect to the client at %s (policy %d, seeder mse %d): %s", clientAddr, c.Enc, c.SeedMSE, lastDialErr)
